@@ -354,6 +354,60 @@ for cell, res in zip(multi_cells, run_parallel(multi_cells, run_multi, workers=5
             chk.violation(f'udp.{l}->{c}', f'multi-destination:{verdict}', f'{l} -> {c}, {kind}, datagram #{pos} after destinations {window}: {verdict} ({detail})', {'listener': l, 'connector': c, 'kind': kind, 'last_destinations': window, 'position': pos})
 samples.append({'multi_destination': {'cells': len(multi_cells), 'de_bruijn_length': len(de_bruijn(4, 3)), 'fresh_pairs': 16}})
 
+# ---- a storm of new sessions: many clients send their first datagram at almost the same time to the reverse UDP
+#      listener (sessions are created one after the other while datagrams keep arriving). Loss is not judged here;
+#      a client must never be handed the answer to another client's datagram
+def run_storm(cname):
+    p_, ap_, rud_ = hopA[cname]
+    port = rud_['ipv4']
+    T, N = 8, (150 if tier() == 'thorough' else 80)
+    res = {'own': 0, 'foreign': [], 'none': 0}
+    lock = threading.Lock()
+    barrier = threading.Barrier(T)
+    def wave(w):
+        socks = []
+        for i in range(N):
+            u = socket.socket(socket.AF_INET, socket.SOCK_DGRAM)
+            u.bind(('127.0.0.1', 0))
+            socks.append(u)
+        barrier.wait()
+        for i, u in enumerate(socks):
+            u.sendto(b'storm-%s-%d-%d' % (cname.encode(), w, i), ('127.0.0.1', port))
+            time.sleep(0.0004)
+        time.sleep(1.2)
+        for i, u in enumerate(socks):
+            u.setblocking(False)
+            got = []
+            try:
+                while True:
+                    d, a = u.recvfrom(4000)
+                    got.append(d)
+            except OSError:
+                pass
+            want = b'Rstorm-%s-%d-%d' % (cname.encode(), w, i)
+            with lock:
+                if not got:
+                    res['none'] += 1
+                elif all(g == want for g in got):
+                    res['own'] += 1
+                else:
+                    res['foreign'].append((want[1:].decode(), [g[:40].decode('latin1') for g in got if g != want]))
+            u.close()
+    ts = [threading.Thread(target=wave, args=(w,), daemon=True) for w in range(T)]
+    [t.start() for t in ts]
+    [t.join() for t in ts]
+    return res
+
+for cname in (['direct', 'socks5'] if tier() != 'thorough' else list(CONNECTORS)):
+    r = run_storm(cname)
+    evals += 1
+    distinct.add(('storm', cname, bool(r['foreign'])))
+    if r['own'] < 20:
+        machinery(f'storm {cname} vacuous: only {r["own"]} sessions got their own answer')
+    if r['foreign']:
+        chk.violation(f'udp.reverse->{cname}', 'session-creation-storm:datagram-of-another-session', f'reverse -> {cname}: {len(r["foreign"])} clients of {r["own"] + r["none"] + len(r["foreign"])} were handed answers to other clients\' datagrams, e.g. {r["foreign"][:2]}', {'connector': cname, 'clients': r['own'] + r['none'] + len(r['foreign']), 'examples': r['foreign'][:5]})
+    samples.append({'session_creation_storm': {'connector': cname, 'answered': r['own'], 'unanswered': r['none'], 'misdelivered': len(r['foreign'])}})
+
 # ---- contiguous payload-size sweep over the fragmenting path (quic datagrams): every residue of the fragment size
 def run_sweep(_):
     out = []
@@ -498,6 +552,6 @@ origin.stop()
 if evals < 100 or len(distinct) < 10:
     machinery(f'vacuous: evals={evals} distinct={len(distinct)}')
 cov = {'evaluations': evals, 'distinct_nontrivial': len(distinct), 'transitions': evals, 'traces_validated_against_impl': evals,
-       'rule': 'real binaries (two hops): UDP listener {socks5 associate, reverse udp, http CONNECT+Proxy-Protocol: udp inline} x connector {direct, socks5, http inline, quic inline, quic datagrams} x destination {ipv4, ipv6, domain} (quick: rotation) x payload sizes x first/later datagram, lock-step with a tagging echo origin; 3 concurrent sessions x 4 rounds per listener x connector; per-datagram destinations inside one association: all ordered triples over {localhost, 127.0.0.1} x {two origins} as a de Bruijn sequence plus all ordered pairs on fresh associations, for socks5 and CONNECT 0.0.0.0:0 x every connector; closed client port per connector',
+       'rule': 'real binaries (two hops): UDP listener {socks5 associate, reverse udp, http CONNECT+Proxy-Protocol: udp inline} x connector {direct, socks5, http inline, quic inline, quic datagrams} x destination {ipv4, ipv6, domain} (quick: rotation) x payload sizes x first/later datagram, lock-step with a tagging echo origin; 3 concurrent sessions x 4 rounds per listener x connector; a storm of new sessions on the reverse listener (8 x 80 clients sending their first datagram 0.4 ms apart; no client may get an answer meant for another client); per-datagram destinations inside one association: all ordered triples over {localhost, 127.0.0.1} x {two origins} as a de Bruijn sequence plus all ordered pairs on fresh associations, for socks5 and CONNECT 0.0.0.0:0 x every connector; closed client port per connector',
        'cells': len(cells), 'sizes': SIZES, 'deadline_verdicts_rerun': retried[0], 'schedule_control': 'kernel', 'samples': samples}
 sys.exit(chk.finish('exploration', cov, ['loopback, lock-step (send one datagram, await its echo with a 3 s deadline): absent network loss holds', 'TPROXY UDP and the QUIC listener as first hop (needs a QUIC client) are not driven directly: QUIC paths are covered as second hop'], merge=False))
